@@ -530,6 +530,20 @@ class Interp:
         self.settle()
         self._snap_clocks()
 
+    def poke_all(self, values):
+        """force every wire with the given name anywhere in the hierarchy (the register itself may live in a submodule and
+        reach the top through port connections); names must be unique per design"""
+        def walk(inst):
+            for name, v in values.items():
+                w = inst.mod.wires.get("\\" + name)
+                if w is not None:
+                    inst.val["\\" + name] = v & _mask(w.width)
+            for ch in inst.children.values():
+                walk(ch)
+        walk(self.top)
+        self.settle()
+        self._snap_clocks()
+
     def find_mem(self, name):
         """memory contents list by (unique) memory name anywhere in the hierarchy"""
         found = []
